@@ -285,32 +285,27 @@ pub fn extract_game_parts_from_name(game: &str) -> GameNameParsed {
         .filter(|w| !w.trim_matches('-').is_empty())
         // Combine numbers that are seperated by dashes
         // e.g. 44-45 = 4445
-        // Panics if there is text after number with trailing dash (44-text)
-        .filter_map(|w| {
-            if number_accumulator.is_some() {
+        // If text follows a number with a trailing dash (44-text) the number is a word of its own
+        .flat_map(|w| -> Vec<String> {
+            if let Some(accumulator) = number_accumulator.take() {
                 if let Some(maybe_number) = w.strip_suffix('-') {
                     if maybe_number.chars().all(|c| c.is_ascii_digit()) {
-                        number_accumulator.as_mut().unwrap().push_str(maybe_number);
-                        return None;
-                    } else {
-                        panic!("Text after number-");
+                        number_accumulator = Some(accumulator + maybe_number);
+                        return vec![];
                     }
                 } else if w.chars().all(|c| c.is_ascii_digit()) {
-                    let mut accumulator = number_accumulator.as_ref().unwrap().clone();
-                    number_accumulator = None;
-                    accumulator.push_str(&w);
-                    return Some(accumulator);
-                } else {
-                    panic!("Text after number-");
+                    return vec![accumulator + &w];
                 }
+
+                return vec![accumulator, w];
             } else if let Some(maybe_number) = w.strip_suffix('-') {
                 if maybe_number.chars().all(|c| c.is_ascii_digit()) {
                     number_accumulator = Some(maybe_number.to_string());
-                    return None;
+                    return vec![];
                 }
             }
 
-            Some(w)
+            vec![w]
         })
         .collect();
 
